@@ -66,3 +66,7 @@ add("C16", "other",
     "Bounded symbolic execution: the real BitWriter/BitReader run on z3 bit-vector proxies under a forking executor (every path explored, coverage proven by z3, round trip / oversize / padding decided per path); the dictionary codec under CrossHair with symbolic str/bytes (plus an exhaustive small-alphabet companion); encode/decode of a circuit family incl. out-of-format circuits with z3 equivalence of decoded outputs and gate-multiset comparison.",
     "Trusted: CPython, z3, CrossHair, proxies. Bounded: <=3 numbers/<=12 symbolic bits; dict <=2 entries, keys <=3 chars; circuits <=5 inputs/<=10 gates. CrossHair 'Not confirmed' is reported inconclusive, not as success.",
     "bounded symbolic execution (forking executor + CrossHair) and z3 equivalence of decoded circuits", "DESIGN.md §3 C16")
+add("C17", "other",
+    "Bounded SMT + bounded symbolic execution: every stored entry (thorough: all 2x349,724; quick: all 2-input entries and a seed-rotated 1/20 stride) is decoded and z3 decides on real-evaluator terms that it computes its key (batched), with well-formedness/basis/normal-form predicates; NormalizationInfo is executed on a fully symbolic table by the forking executor (all paths, z3-proven coverage) and denormalize is shown to give back the table; end-to-end look-ups incl. don't-cares compare with direct look-ups of every completion.",
+    "Trusted: CPython, z3, proxies. Bounded: normalisation shapes up to 3x4/1x8 (quick), +2x8, 4x4 (thorough); tables <=3 inputs; <=4 don't-cares.",
+    "bounded SMT on decoded entries; forking symbolic execution of the normalisation over a symbolic table", "DESIGN.md §3 C17")
